@@ -58,6 +58,9 @@ type SubReq struct {
 
 type sqlResult interface{ RowsAffected() (int64, error) }
 
+// how long a waiting pull is left waiting before the client abandons it
+const pullWaitFor = 300 * time.Millisecond
+
 type Triple struct{ Msg, Sub, ID uuid.UUID }
 type FuzzV struct {
 	ID uuid.UUID
@@ -87,6 +90,7 @@ type Op struct {
 	MaxN     int
 	Delay    time.Duration
 	Nacks    []string
+	Wait     bool // Pull: a waiting pull (return_immediately = false) that the client abandons after pullWaitFor
 
 	// oracles, filled in after execution
 	Fresh     uuid.UUID
@@ -590,7 +594,20 @@ func (e *Env) Exec(ctx context.Context, op *Op, pre *Dump) (*Obs, error) {
 		}
 	case "Pull":
 		var r *pubsubpb.PullResponse
-		if r, err = e.Sub.Pull(ctx, &pubsubpb.PullRequest{Subscription: op.Name, MaxMessages: op.Max, ReturnImmediately: true}); err == nil {
+		pctx, pcancel := ctx, context.CancelFunc(func() {})
+		if op.Wait {
+			pctx, pcancel = context.WithTimeout(ctx, pullWaitFor)
+		}
+		r, err = e.Sub.Pull(pctx, &pubsubpb.PullRequest{Subscription: op.Name, MaxMessages: op.Max, ReturnImmediately: !op.Wait})
+		pcancel()
+		if op.Wait && err != nil && status.Code(err) == codes.DeadlineExceeded {
+			// the client gave up on a pull that found nothing: compared with the model's empty
+			// pull (the subscription's expiry heartbeat must have been written all the same)
+			err = nil
+			r = &pubsubpb.PullResponse{}
+			time.Sleep(30 * time.Millisecond) // let the server side notice the cancellation
+		}
+		if err == nil {
 			resp = &Resp{Kind: "pull"}
 			for _, m := range r.ReceivedMessages {
 				a, _ := uuid.Parse(m.AckId)
